@@ -120,3 +120,39 @@ def defaults_consistent(kind, nsamp, s, k):
         return False
     t = UnitValue(0.25 * k, "s")
     return tr.get_sample_index(t) == tr.get_sample_index(t, "closest") == tr.get_sample_index(t, policy="closest")
+
+
+def species_after_relist(order, extra, s, n, i):
+    """The network's species list is REASSIGNED (reordered, optionally with a new species in front) after label / object look-ups
+    were already made on the network; a system and a trajectory built afterwards must resolve labels and objects to the species'
+    CURRENT position: by label == by object == by index == the data entry."""
+    import itertools
+    net = RDNetwork(species=[Species("A", D=1), Species("B", D=2), Species("C", D=3)], reactions=[Reaction("A + B -> C", kf=1)])
+    space = RDGridSpace(w=2, h=1, d=1)
+    sys0 = RDSystem(net, space)
+    for lab in ("A", "B", "C"):
+        sys0.set_state(lab, 0, 5.0)                 # label look-ups on the network
+        net.get_species_index(lab)
+    for q in list(net.species):
+        net.get_species_index(q)                    # object look-ups
+    perm = list(itertools.permutations(range(3)))[order]
+    new = [net.species[k] for k in perm]
+    if extra:
+        new = [Species("Z", D=4)] + new
+    net.species = new
+    ns, nc, nsamp = len(new), 2, 3
+    if s >= ns:
+        return True
+    system = RDSystem(net, space)
+    data = UnitArray(np.arange(nsamp * ns * nc, dtype=float), "mmol")
+    tr = RDTrajectory(data, UnitArray(np.arange(nsamp, dtype=float), "s"), system)
+    expect = n * ns * nc + s * nc + i
+    lab = new[s].label
+    for sp in (s, lab, tr.system.network.species[s], new[s]):
+        if tr.get_trajectory_point(sp, n, i).value != expect:
+            return False
+        if tr.get_state(sp, n).value[i] != expect or tr.get_trajectory(sp, i).value[n] != expect:
+            return False
+    # the system's own accessors resolve the label to the same position
+    system.set_state(lab, i, 77.0)
+    return float(system.state.value[s * nc + i]) == 77.0 and net.get_species_index(lab) == s and system.network.get_species_index(lab) == s
